@@ -23,7 +23,7 @@ META = dict(
          "itself is C08/C10, the TCP send queue C17.",
     note="trusted: Coq kernel, the hand-written model (tied by sampling), harness/data_h.c (interposed kernel, wrapped socket interface), harness/sim.c, "
          "python oracles. Partial: UDP / pseudo-TCP transports by counterexample search only; bytestream-tcp reassembly modelled and tied, its theorem is "
-         "limited (see notes/C02.md).",
+         "limited (see notes/C02.md). Plain UDP (socket/udp-bsd.c, sendmmsg batches of scatter/gather messages) is exercised over real loopback sockets by harness/udp_h.c with an implementation-side oracle only (one datagram per message, its own buffers, in order).",
     technique="Coq proof over an executable model of the framing/reassembly code + differential tie evaluated inside Coq on real two-agent ICE-TCP runs + "
               "deterministic simulation for UDP and pseudo-TCP")
 FINISH = dict(level="proof",
